@@ -51,7 +51,7 @@ class Check:
     }
 
     def runs(self, tier):
-        return 2400 if tier == 'quick' else 60000
+        return 6000 if tier == 'quick' else 120000
 
     def wall_cap(self, tier):
         return 600 if tier == 'quick' else 6600
